@@ -6,7 +6,7 @@ export CARGO_NET_OFFLINE=true
 mkdir -p work evidence replays
 (cd harness && cargo build --offline --quiet --features batch --target-dir target-batch)
 (cd harness && cargo build --offline --quiet --target-dir target-nobatch)
-for m in spec/Trace.tla; do
+for m in spec/Trace.tla spec/TraceFn.tla; do
   tla-sany "$m" >/dev/null
 done
 echo "setup ok"
